@@ -1,6 +1,7 @@
 package checks
 
 import (
+	"bytes"
 	"context"
 	"encoding/json"
 	"errors"
@@ -750,6 +751,37 @@ func c20RunOne(c *core.Ctx, in c20input, allow bool) {
 	if pi != nil {
 		report(stage, pi)
 		return
+	}
+	// the other ways bytes enter the loader (a third of the inputs, the entry chosen by the input's hash)
+	if h := core.Hash64(string(in.data)); in.root == "" && h%3 == 0 {
+		alt := []string{"LoadFromIoReader", "LoadFromDataWithPath(nil location)", "unmarshal + ResolveRefsIn(nil location)", "LoadFromURI through the reader"}[(h/3)%4]
+		l2 := openapi3.NewLoader()
+		l2.IsExternalRefsAllowed = allow
+		l2.ReadFromURIFunc = func(_ *openapi3.Loader, u *url.URL) ([]byte, error) {
+			if u.Path == "mem/root.json" {
+				return in.data, nil
+			}
+			return nil, fmt.Errorf("no such document %s", u.String())
+		}
+		c.Eval()
+		c.Cover("entry_points", alt)
+		if pi2 := core.Guard(func() {
+			switch alt {
+			case "LoadFromIoReader":
+				l2.LoadFromIoReader(bytes.NewReader(in.data))
+			case "LoadFromDataWithPath(nil location)":
+				l2.LoadFromDataWithPath(in.data, nil)
+			case "unmarshal + ResolveRefsIn(nil location)":
+				d2 := &openapi3.T{}
+				if yaml.Unmarshal(in.data, d2) == nil {
+					l2.ResolveRefsIn(d2, nil)
+				}
+			default:
+				l2.LoadFromURI(&url.URL{Path: "mem/root.json"})
+			}
+		}); pi2 != nil {
+			report(alt, pi2)
+		}
 	}
 	// did it get past the parser?
 	var top any
